@@ -277,7 +277,12 @@ def run(chk, replay=None):
         want = (sum(1 for x in dist if x >= stat) / len(dist), sum(1 for x in dist if x <= stat) / len(dist))
         gaps = sorted(abs(x - stat) for x in dist if x != stat)
         if not gaps or gaps[0] > 1e-9:
-            raise MachineryError('the near-tie forecast has no statistic within 1e-9 of the observed one (%r)' % (gaps[:2],))
+            # (the statistics themselves are then not those of the definitions - which the records above report; this sub-check
+            #  has nothing to say)
+            chk.log('near-tie forecast: no statistic within 1e-9 of the observed one for %s (%r)' % (tname, gaps[:2]))
+            chk.notes['near_tie_' + tname] = 'not formed'
+            continue
+        chk.notes['near_tie_' + tname] = 'gap %.3g' % gaps[0]
         got = tuple(float(x) for x in r.quantile)
         if got != want:
             chk.violation('%s:quantile differs from the empirical probabilities of the reported distribution:near-tie' % tname,
